@@ -12,9 +12,10 @@ for d in sorted(glob.glob('/verif/seeded/*/meta.json')):
 n = len(rows)
 txt = '''## 12. Seeded changes
 
-%d changes were produced by fresh sub-agents in three rounds (the third, in two batches, asked explicitly for
+%d changes were produced by fresh sub-agents in four rounds (the third, in two batches, asked explicitly for
 less obvious mechanisms: unusual type parameters, rarely used entry points, error paths,
-feature interactions), each agent given only the text of one property and its own scratch git
+feature interactions; the fourth for secondary clauses of the statements, silent effects,
+shared helpers and almost-equivalent clean-ups), each agent given only the text of one property and its own scratch git
 worktree under `/tmp` (nothing from `/verif`), and asked for a change that still compiles and
 passes the whole existing test suite but breaks the property, with a demonstration. Each was
 kept only after `tools/confirm_mutant.sh` confirmed, in the scratch worktree: the patch
@@ -39,7 +40,13 @@ symbols after shifts and wrap-around (C15), `get_compressed` views inside bit-co
 independent of the entries (C19), range decoders over reversed data with mirrored positions
 (C07), refused seeks, retries after out-of-data and transient read failures between chain
 decodes (C14), bulk writes on cursors (C17), models built from hostile float tables on the
-fixed-point grid and then used through every method (C20). "missed" entries for *other* properties' checks are listed for completeness; they are
+fixed-point grid and then used through every method (C20); and from round 4: clones taken
+by `clone_from` onto stale copies (C01, C08, C14), iterator adaptors over the decoding
+iterators (C01, C14), write faults inside batch encodes (C09), lazy models beyond the float
+mantissa with words placed at symbol boundaries and range decoders from validated raw parts
+(C10), encoders started on pre-filled sinks and inspected before the first symbol (C08, C11,
+C18), peeks inside format messages (C06), export views between size queries (C18), one more
+parameter mode of the Python models (C19). "missed" entries for *other* properties' checks are listed for completeness; they are
 outside those properties' statements.
 
 | id | change | needs to manifest | checks run (quick) |
